@@ -98,7 +98,14 @@ def execute(stim):
                 rec('sa_begin', b=b)
                 try:
                     if conf.get('slowstop'):
-                        await asyncio.sleep(conf['slowstop'] * TICK)
+                        try:
+                            await asyncio.sleep(conf['slowstop'] * TICK)
+                        except asyncio.CancelledError:
+                            if conf.get('cl'):
+                                # timed out and cancelled: the routine needs a moment to wind up;
+                                # the simulator must wait for it all the same
+                                await asyncio.sleep(conf['cl'] * TICK)
+                            raise
                     await orig(self)
                     if conf.get('busytail'):
                         # the clean-up routine ends with a blocking piece of code: timers that
@@ -488,6 +495,6 @@ def execute(stim):
     # blocks that are not sequential (cb) have no start/stop records: not counted
     hdr = {'blocks': [{'async': h['async'], 'tmo': h['tmo'], 'sd': h['sd']} for h in result['hdr']], 'api': stim['api'],
            # blocking code in clean-up routines: no timeout can interrupt it
-           'busy': sum(c.get('busytail') or 0 for c in stim['blocks']),
+           'busy': sum((c.get('busytail') or 0) + (c.get('cl') or 0) for c in stim['blocks']),
            'check': stim.get('check', '')}
     return {'hdr': hdr, 'ev': lines}
